@@ -246,7 +246,7 @@ def check_results(P: C.Part, r, rs, rx, ry, x, y, fs, opts, kind: str, where: st
                 bad("coh-one-segment", j, f"one segment but coherence = {coh[j]!r} (XX={XX[j]!r}, YY={YY[j]!r}, XY={XY[j]!r})")
         if dep and pos:
             rr = B["tXX"][j] / XX[j] + B["tYY"][j] / YY[j] + 2 * B["tXY"][j] / math.sqrt(XX[j] * YY[j])
-            if rr > 2.5e-4:
+            if rr > 0.05:
                 P.unstable += 1       # channel power at the rounding floor of the recurrence: coherence carries no information
             elif not within("coh=1 (dependent)", abs(coh[j] - 1.0), 4 * rr + epsK[j]):
                 bad("coh-one-dependent", j, f"y is a multiple of x but coherence = {coh[j]!r} (tolerance {4 * rr + epsK[j]:.3g})")
@@ -262,7 +262,7 @@ def check_results(P: C.Part, r, rs, rx, ry, x, y, fs, opts, kind: str, where: st
             bad("Gyx-conj", j, f"Gyx = {A['Gyx'][j]!r} is not the conjugate of Gxy = {A['Gxy'][j]!r}")
         if XX[j] > 0 and YY[j] > 0:
             rr = B["tXX"][j] / XX[j] + B["tYY"][j] / YY[j] + 2 * B["tXY"][j] / math.sqrt(XX[j] * YY[j])
-            if rr > 2.5e-4:
+            if rr > 0.05:
                 P.unstable += 1
             elif not within("swap coh", abs(S["coh"][j] - coh[j]), 4 * rr + epsK[j] + 1e-12 * coh[j]):
                 bad("swap-coh", j, f"coherence {coh[j]!r} for [x,y] but {S['coh'][j]!r} for [y,x] (tol {4 * rr + epsK[j]:.3g})")
